@@ -6,6 +6,8 @@
 From Coq Require Import String Ascii.
 From Coq Require Import List NArith ZArith QArith Bool Floats Permutation Sorted.
 From Pcfg Require Import ProbAlg F64 TextFile Counters CountersProofs LtallyProofs IoFloatFacts CountersF64 IoFacts.
+From Pcfg Require Import SmallGenProofsProbs.
+From PcfgGen Require Import Small_probs_gen.
 Import ListNotations.
 
 (* A list written from the tally of an item sequence: the lines are
@@ -130,7 +132,52 @@ Theorem C06_example_hypotheses :
   ex_items <> [] /\ ~ (total (@of_counts QNum (tally ex_items)) == 0)%Q /\ (0 < total (@of_counts QNum (tally ex_items)))%Q.
 Proof. exact ex_hyps. Qed.
 
+(* ---- translator tie: the Python text of calculate_probabilities
+   (lib_trainer/calculate_probabilities.py), translated on every run into
+   gen/Small_probs_gen.v, IS the model's calc_probs - for every number structure
+   (Q and binary64), every counter and every value of a subscript that raises ---- *)
+Theorem C06_source_calculate_probabilities_is_model :
+  forall (O : numops) (undef_pair : str * num O) (c : counter O),
+  py_calculate_probabilities undef_pair c = calc_probs c.
+Proof. exact (@small_calc_probs_eq). Qed.
+
+(* the main statements transported to the source *)
+Theorem C06_source_each_once_sorted : forall (undef_pair : str * Q) (items : list str), items <> [] ->
+  let c := @of_counts QNum (tally items) in
+  let file := @py_calculate_probabilities QNum undef_pair c in
+  file = map (fun kv => (fst kv, (snd kv / total c)%Q)) (most_common c) /\
+  Permutation (most_common c) c /\
+  NoDup (map fst file) /\
+  (forall v, In v (map fst file) <-> In v items) /\
+  (forall v p, In (v, p) file ->
+     (p == inject_Z (Z.of_nat (count_str v items)) / inject_Z (Z.of_nat (length items)))%Q) /\
+  StronglySorted (fun a b => (snd b <= snd a)%Q) file /\
+  (forall q : Q, filter (fun kv => Qeq_bool (snd kv) q) (most_common c) = filter (fun kv => Qeq_bool (snd kv) q) c) /\
+  map fst c = nodup_first items.
+Proof. exact small_each_once_sorted. Qed.
+
+Theorem C06_source_sum_one_Q : forall (undef_pair : str * Q) (c : counter QNum),
+  ~ (total c == 0)%Q -> (qsum (map snd (@py_calculate_probabilities QNum undef_pair c)) == 1)%Q.
+Proof. exact small_sum_one_Q. Qed.
+
+Theorem C06_source_F64_sorted_unit : forall (undef_pair : str * PrimFloat.float) (c : counter FNum),
+  Forall (fun kv => okbF (snd kv) = true /\ (snd kv <=? total c)%float = true) c ->
+  okbF (total c) = true -> (0 <? total c)%float = true ->
+  Sorted prob_desc (@py_calculate_probabilities FNum undef_pair c) /\
+  Forall (fun kv => unitbF (snd kv) = true) (@py_calculate_probabilities FNum undef_pair c).
+Proof. exact small_F64_sorted_unit. Qed.
+
+Example C06_source_F64_example :
+  let c : counter FNum := [([97], 2%float); ([98], 2%float); ([99], 1%float)]%N in
+  @py_calculate_probabilities FNum ([], 0%float) c =
+  [([97], 0x1.999999999999ap-2%float); ([98], 0x1.999999999999ap-2%float); ([99], 0x1.999999999999ap-3%float)]%N.
+Proof. exact small_F64_example. Qed.
+
 Print Assumptions C06_each_once_sorted.
+Print Assumptions C06_source_calculate_probabilities_is_model.
+Print Assumptions C06_source_each_once_sorted.
+Print Assumptions C06_source_sum_one_Q.
+Print Assumptions C06_source_F64_sorted_unit.
 Print Assumptions C06_length_indexed.
 Print Assumptions C06_sum_one_Q.
 Print Assumptions C06_markov_count.
